@@ -243,7 +243,15 @@ pub fn malform(r: &mut Rng, e: &mut EchoReq) -> Option<String> {
         }
         "echo_page" => {
             let b64 = |t: &str| crate::sha1::base64_url(t.as_bytes());
-            let (key, val, why): (&str, String, &str) = match r.below(10) {
+            let (key, val, why): (&str, String, &str) = match r.below(18) {
+                10 => ("min", "".into(), "scan parameter min= (empty, not a number)"),
+                11 => ("min", "abc".into(), "scan parameter min=abc"),
+                12 => ("min", "9223372036854775808".into(), "scan parameter min out of range"),
+                13 => ("ord", "".into(), "scan parameter ord= (empty, not a variant)"),
+                14 => ("ord", "Purple".into(), "scan parameter ord=Purple"),
+                15 => ("flag", "".into(), "scan parameter flag= (empty, not a bool)"),
+                16 => ("flag", "2".into(), "scan parameter flag=2"),
+                17 => ("min", "1.5".into(), "scan parameter min=1.5"),
                 0 => ("page_token", "%25%25%25".into(), "page token is not base64"),
                 1 => ("page_token", "abc".into(), "page token is truncated base64"),
                 2 => ("page_token", b64("{\"v\":\"v1\",\"page_start\":{\"n\":1"), "page token holds truncated JSON"),
@@ -255,7 +263,13 @@ pub fn malform(r: &mut Rng, e: &mut EchoReq) -> Option<String> {
                 8 => ("limit", "0".into(), "limit=0"),
                 _ => ("limit", "ten".into(), "limit=ten"),
             };
-            e.query.retain(|(k, _)| k != key && !(key == "page_token" && k == "tag"));
+            let scan_keys = ["tag", "min", "ord", "flag"];
+            if scan_keys.contains(&key) {
+                // scan parameters belong to first-page requests
+                e.query.retain(|(k, _)| k != key && k != "page_token");
+            } else {
+                e.query.retain(|(k, _)| k != key && !(key == "page_token" && scan_keys.contains(&k.as_str())));
+            }
             e.query.push((key.to_string(), val));
             Some(why.into())
         }
